@@ -5,6 +5,7 @@ claimed to be which model function.  Helper lemmas only; the property theorems a
 import Tetl.C15.GenBuiltins
 import Tetl.C15.DefnSpec
 import TetlProofs.C15.Lemmas
+import TetlProofs.C15.Limits
 namespace Tetl.C15.Defs
 open Tetl Tetl.C15 CType Defn
 
@@ -98,5 +99,28 @@ def familyTraits : List (Entry × String × (CType → List CType)) :=
 
 /-- names of `_v` variables that are not traits of the standard or wrap the class template's value in a cast -/
 def notATraitVar : List String := ["extent", "index", "is_specialized"]
+
+/-! ### numeric_limits: the hand model of Model.lean against the members as the header spells them -/
+
+open Tetl.C15.LimExpr in
+/-- how Model.lean classifies the specialisation of a type -/
+def kindOf : String → IntKind
+  | "bool" => .bool
+  | "char" => .char
+  | "char8_t" => .char8
+  | _ => .plain
+
+open Tetl.C15.LimExpr in
+/-- all eight modelled members of `intLimits` (what the driver prints for R1) are the values the header's expressions
+    evaluate to, without undefined behaviour -/
+def modelOk (s : LimSpec) : Bool :=
+  match typeInfo s.ty, ityOf s.ty with
+  | some (_, bits, sg), some T =>
+    let m := intLimits (kindOf s.ty) bits sg
+    memberIs T s "is_signed" (Limits.b2i m.isSigned) && memberIs T s "digits" m.digits &&
+    memberIs T s "digits10" m.digits10 && memberIs T s "min" m.min && memberIs T s "max" m.max &&
+    memberIs T s "lowest" m.lowest && memberIs T s "is_modulo" (Limits.b2i m.isModulo) &&
+    memberIs T s "traps" (Limits.b2i m.traps)
+  | _, _ => false
 
 end Tetl.C15.Defs
